@@ -32,7 +32,7 @@ tvars == <<vars, l, pre>>
 E == Trace[l]
 IsEv(n) == l <= Len(Trace) /\ E.ev = n
 Consume == l' = l + 1
-Same == UNCHANGED <<dialv, strv, runv, brkv, twv, accv, panicked, nid>>
+Same == UNCHANGED <<dialv, strv, runv, brkv, twv, accv, panicked, nid, down>>
 
 TraceInit == Init /\ l = 2 /\ pre = {}
 
@@ -41,7 +41,7 @@ Advance == /\ l <= Len(Trace) /\ now < E.t
            /\ now' = E.t /\ Same /\ UNCHANGED <<l, pre>>
 AtTime == l <= Len(Trace) /\ now = E.t
 
-Skippable == {"call.accept", "mux.run.exit", "note"}
+Skippable == {"call.accept", "note"}
 Keep == UNCHANGED pre
 Confirm(x) == x \in pre /\ pre' = pre \ {x} /\ Same
 
@@ -55,6 +55,12 @@ TDialOpened == IsEv("mux.dial.opened") /\ E.g \in Dials /\ dpc[E.g] \in {"opened
 TDialWrote  == IsEv("mux.dial.wrote") /\ E.b = 1 /\ E.g \in Dials
                /\ \/ DialWrite(E.g) /\ Keep
                   \/ Confirm(<<"mux.dial.wrote", E.g, 1>>)
+TDialWroteFail == IsEv("mux.dial.wrote") /\ E.b = 0 /\ E.g \in Dials /\ DialWriteFail(E.g) /\ Keep
+\* the driver cuts the connection (logged before it does so)
+TSessionDown == IsEv("session.down") /\ SessionDown /\ Keep
+\* a Run loop ends: because the session died, or at the driver's teardown after the scenario
+TRunExit == IsEv("mux.run.exit") /\ Keep
+            /\ IF down /\ rpc[E.obj] = "accept" THEN RunExit(E.obj) ELSE Same
 TDialAck    == IsEv("mux.dial.ack") /\ E.g \in Dials /\ DialAck(E.g) /\ Keep
                /\ dres'[E.g] = (CASE E.b = 1 -> "ok" [] E.b = 0 -> "eof" [] OTHER -> "badack")
 \* C06: with no scheduling lag (header "strict"), a call whose only peer was issued inside the
@@ -68,7 +74,7 @@ TAbortClosed == IsEv("abort.closed") /\ E.g \in AbortDials
                 /\ \/ DialAbort(E.g) /\ Keep
                    \/ Confirm(<<"abort.closed", E.g, 1>>)
 TRetDial    == IsEv("ret.dial") /\ E.g \in Dials /\ dpc[E.g] = "ret" /\ dres[E.g] = E.res /\ Same /\ Keep
-               /\ ((Strict /\ PeerInWindowD(E.g)) => E.res = "ok")
+               /\ ((Strict /\ ~down /\ PeerInWindowD(E.g)) => E.res = "ok")
 
 \* ---- getStream runs under the broker lock and is logged there: this is where the slot is looked
 \* up / created, for an Accept caller (g is the call) or for the Run loop of that side.  The logged
@@ -92,11 +98,12 @@ TAcceptClosed == IsEv("mux.accept.closed") /\ E.g \in Accepts
 TAcceptAck  == IsEv("mux.accept.ack") /\ E.b = 1 /\ E.g \in Accepts
                /\ \/ AcceptAck(E.g) /\ Keep
                   \/ Confirm(<<"mux.accept.ack", E.g, 1>>)
+TAcceptAckFail == IsEv("mux.accept.ack") /\ E.b = 0 /\ E.g \in Accepts /\ AcceptAckFail(E.g) /\ Keep
 TAcceptTimeout == IsEv("mux.accept.timeout") /\ E.g \in Accepts /\ AcceptTimeout(E.g) /\ Keep
                   /\ (Exact => E.t = adl[E.g])
 TAcceptDeleted == IsEv("mux.accept.deleted") /\ E.g \in Accepts /\ AcceptDelete(E.g) /\ Keep
 TRetAccept  == IsEv("ret.accept") /\ E.g \in Accepts /\ apc[E.g] = "ret" /\ ares[E.g] = E.res /\ Same /\ Keep
-               /\ ((Strict /\ PeerInWindowA(E.g)) => E.res = "ok")
+               /\ ((Strict /\ ~down /\ PeerInWindowA(E.g)) => E.res = "ok")
 
 \* ---- the controller released a goroutine from a gate: its timers start now
 TRel ==
@@ -191,7 +198,7 @@ Ahead ==
 TraceNext ==
   \/ Advance
   \/ /\ AtTime /\ Consume /\ UNCHANGED now
-     /\ \/ TSkip \/ TCallDial \/ TAbortOpen \/ TAbortClosed \/ TRunIdFail \/ TDialOpened \/ TDialWrote \/ TDialAck \/ TRetDial \/ TGetStream
+     /\ \/ TSkip \/ TSessionDown \/ TRunExit \/ TDialWroteFail \/ TAcceptAckFail \/ TCallDial \/ TAbortOpen \/ TAbortClosed \/ TRunIdFail \/ TDialOpened \/ TDialWrote \/ TDialAck \/ TRetDial \/ TGetStream
         \/ TAcceptSlot \/ TAcceptTook \/ TAcceptClosed \/ TAcceptAck \/ TAcceptTimeout \/ TAcceptDeleted
         \/ TRetAccept \/ TRel \/ TRunStream \/ TRunId \/ TRunSlot \/ TRunPark
         \/ TTwWoke \/ TTwDrain \/ TXfer \/ TNextId
